@@ -2,17 +2,18 @@
  * Universal statements use ghost indices g_k (buffer position) and g_q (parameter index) havoc'd by the harness. */
 #include "verif_c.h"
 #include "constants.h"
-
-#ifdef CAP                                     /* only the small-scope counterexample search (defines_small) sets CAP */
-#define MAXLEN (CAP)
-#else
-#define MAXLEN (SPX_SET_MAX_LINE_LEN - 1)     /* longest string getline() can put into char line[SPX_SET_MAX_LINE_LEN] */
+#ifdef CAP            /* quick tier / small-scope search only: a smaller line buffer (the loop proofs are inductive) */
+#undef SPX_SET_MAX_LINE_LEN
+#define SPX_SET_MAX_LINE_LEN (CAP + 1)
 #endif
+
+#define MAXLEN (SPX_SET_MAX_LINE_LEN - 1)     /* longest string getline() can put into char line[SPX_SET_MAX_LINE_LEN] */
 #ifndef SLACK
 #define SLACK 0                                /* readable NUL bytes behind the terminator (0 = exactly sized buffer) */
 #endif
 #define NTAB 64                                /* size of the match tables; the enum counts are checked to be <= NTAB */
 
+#define IS_WS(c)    ((c) == ' ' || (c) == '\t' || (c) == '\r')
 char* gp_line; int g_len; int g_k; char v_g; int g_q;
 const unsigned char* gp_mb; const unsigned char* gp_mi; const unsigned char* gp_mr;
 int* gp_off; int g_ptoff, g_pnoff, g_pvoff;
@@ -28,6 +29,21 @@ const char* gp_src; int g_srclen;
 
 /* `throw` inside a stub: see CONV_THROW in unit.cpp (followed by an unreachable marker) */
 void verif_throw(void) {}
+/* Called by the comparison / conversion stubs with the offset of the token they are handed: the token must be a
+ * C string inside the buffer that ends BEFORE any blank, line end or comment character, i.e. the parser terminated
+ * it where the token ends.  e = position of the first NUL at or behind off (chosen nondeterministically and pinned
+ * down with constant-range quantifiers; its existence is asserted first). */
+#define IS_BREAK(c) (IS_WS(c) || (c) == '\n' || (c) == '#')
+void token_clean(int off)
+{
+   __CPROVER_assert(0 <= off && off <= MAXLEN, "token pointer inside the line buffer");
+   __CPROVER_assert(__CPROVER_exists { int j; (0 <= j && j <= MAXLEN) && (off <= j && gp_line[j] == '\0') }, "token is NUL-terminated inside the line buffer");
+   int e = nondet_int();
+   __CPROVER_assume(off <= e && e <= MAXLEN && gp_line[e] == '\0');
+   __CPROVER_assume(__CPROVER_forall { int j; (0 <= j && j <= MAXLEN) ==> ((off <= j && j < e) ==> gp_line[j] != '\0') });
+   __CPROVER_assert(__CPROVER_forall { int j; (0 <= j && j <= MAXLEN) ==> ((off <= j && j < e) ==> !IS_BREAK(gp_line[j])) },
+                    "token handed to a comparison/conversion routine contains no blank, line end or comment character");
+}
 unsigned long nondet_ul(void);
 long nondet_l(void);
 char nondet_c(void);
@@ -46,7 +62,6 @@ static void havoc_ghosts(void)
    g_spec_bval = -2; g_type_tag = -2; g_name_seed_ok = 0; g_toff = -1; g_noff = -1; g_voff = -1; g_set_rval = 0.0; g_set_uval = 0;
 }
 
-#define IS_WS(c)    ((c) == ' ' || (c) == '\t' || (c) == '\r')
 #define IS_DELIM(c) (IS_WS(c) || (c) == '\n' || (c) == '#' || (c) == '\0' || (c) == ':' || (c) == '=')
 #define TABLES_FRESH (__CPROVER_is_fresh(mb, NTAB) && __CPROVER_is_fresh(mi, NTAB) && __CPROVER_is_fresh(mr, NTAB))
 #define GHOST_WRITES gp_line, gp_mb, gp_mi, gp_mr, gp_off, g_ptoff, g_pnoff, g_pvoff, g_ncalls, g_nsets, g_set_kind, g_set_param, \
